@@ -202,7 +202,7 @@ def run(rep):
         rep.add_tlc("C04.GridItems (argument vectors, receivers, operator forms, use statements) + GridLaw", gres)
         items = {}
         for r in gres.records:
-            if r.get("kind") in ("vec", "recv", "op", "use", "huge", "allocating", "param", "compiling", "nested"):
+            if r.get("kind") in ("vec", "recv", "op", "use", "useop", "usearg", "usefin", "huge", "allocating", "param", "compiling", "nested"):
                 items[json.dumps(r, sort_keys=True)] = r
         items = [items[k] for k in sorted(items)]
         gres.records, gres.stdout = None, ""
@@ -211,6 +211,11 @@ def run(rep):
         rgroups = {r["pf"]: set(r["to"]) for r in items if r["kind"] == "recv"}
         ops = [{"n": r["pf"], "t": r["cls"][0], "ar": r["ar"], "g": r["to"][0]} for r in items if r["kind"] == "op"]
         use = [r["cls"][0] for r in sorted((r for r in items if r["kind"] == "use"), key=lambda r: r["ar"])]
+        # (round 4) the widened use: operator forms with the result as receiver, the result as argument of every function of a
+        # namespace, uncaught statements
+        useops = [{"n": r["pf"], "t": r["cls"][0], "a": list(r["to"])} for r in items if r["kind"] == "useop"]
+        useargs = [{"ns": r["pf"], "t": r["cls"][0]} for r in sorted((r for r in items if r["kind"] == "usearg"), key=lambda r: (r["pf"], r["ar"]))]
+        usefin = [r["cls"][0] for r in sorted((r for r in items if r["kind"] == "usefin"), key=lambda r: r["ar"])]
         params = {r["pf"]: r["ar"] for r in items if r["kind"] == "param"}
         huge = sorted({r["pf"] for r in items if r["kind"] == "huge"})
         allocating = sorted({r["pf"] for r in items if r["kind"] == "allocating"})
@@ -220,7 +225,7 @@ def run(rep):
         usevecs = [list(v) for v in vecs if "use" in vgroups[v]]
         main = [v for v in vecs if "kinds" in vgroups[v]]
         classes = sorted({a for v in vecs for a in v})
-        if (len(main) < 800 or len(huge) < 3 or len(allocating) < 10 or not any(len(v) == 3 for v in main) or len(ops) < 30 or len(use) < 10
+        if (len(main) < 800 or len(huge) < 3 or len(allocating) < 10 or not any(len(v) == 3 for v in main) or len(ops) < 30 or len(use) < 10 or len(useops) < 25 or len(useargs) < 6 or not usefin
                 or set(params) != {"HostileSize", "DeepLevels", "MutBudget"} or len(oppairs) < 50 or not compiling or not nested):
             raise Machinery("argument grid incomplete: %d vectors, %d huge classes, %d allocating names, %d operator forms, %d use statements, "
                             "parameters %r" % (len(main), len(huge), len(allocating), len(ops), len(use), params))
@@ -235,6 +240,9 @@ def run(rep):
         rep.notes["argument_classes"] = classes
         rep.notes["receiver_groups"] = {k: sorted(v) for k, v in sorted(rgroups.items())}
         rep.notes["use_statements"] = use
+        rep.notes["use_operator_forms"] = sorted("%s(%s)" % (u["n"], ",".join(u["a"])) for u in useops)
+        rep.notes["use_argument_shapes"] = sorted("%s.%s" % (u["ns"], u["t"]) for u in useargs)
+        rep.notes["use_uncaught"] = usefin
         py_classes = set(ARG_PY)
         ecases = []
         nslice = 12
@@ -250,6 +258,7 @@ def run(rep):
                     vs = [list(v) for v in mine[k::ns] if intrep == "lit" or any(a in py_classes for a in v)]
                     ecases.append({"kind": "grid", "recv": recv, "vecs": vs, "allocating": allocating, "huge": huge, "intrep": intrep,
                                    "ops": myops if intrep == "lit" else [], "oppairs": oppairs, "use": use, "usevecs": usevecs,
+                                   "useops": useops, "useargs": useargs, "usefin": usefin,
                                    "params": params, "compiling": compiling, "nested": nested})
         stats["nrecv"] = len(RECEIVERS)
         process(rep, rng, ecases, stats)
@@ -437,8 +446,8 @@ def process(rep, rng, ecases, stats, flush=False):
             i = len(recs)
             # (a call record carries only the fields JudgeCall reads; the message stays on this side for the report)
             recs.append({"id": i, "kind": "call", "out": dict(r["out"], msg=""), "lex": dict(r.get("use") or NOLEX, msg=""),
-                         "fname": r["fname"], "args": r["args"]})
-            msgs[i] = r["out"].get("msg", "") or (r.get("use") or {}).get("msg", "")
+                         "fin": [dict(f, msg="") for f in r.get("fin", [])], "fname": r["fname"], "args": r["args"]})
+            msgs[i] = r["out"].get("msg", "") or (r.get("use") or {}).get("msg", "") or " | ".join(f.get("msg", "") for f in r.get("fin", []))
             srcs[i] = "%s %s" % (r["recv"], r["src"])
             stats["ncalls"] += 1
             stats["nops"] = stats.get("nops", 0) + (r["form"] == "op")
@@ -468,6 +477,8 @@ def process(rep, rng, ecases, stats, flush=False):
         bad = r["out"]
         if r["kind"] == "call" and r["lex"]["o"] != "none" and r["out"]["o"] in ("value", "jserror", "syntax", "timelimit", "memlimit"):
             bad = r["lex"]                           # the call itself is typed: the mismatch is about the use of its result
-        rep.mismatch(srcs[i], {"why": v["why"], "dev": v.get("dev", ""), "out": r["out"], "lex": r["lex"], "args": r["args"], "msg": msgs.get(i, ""),
+            if bad["o"] in ("value", "jserror", "syntax", "timelimit", "memlimit"):
+                bad = next((f for f in r.get("fin", []) if f["o"] not in ("value", "jserror", "syntax", "timelimit", "memlimit")), bad)
+        rep.mismatch(srcs[i], {"why": v["why"], "dev": v.get("dev", ""), "out": r["out"], "lex": r["lex"], "fin": r.get("fin", []), "args": r["args"], "msg": msgs.get(i, ""),
                                "fname": r["fname"], "case": {"m": r["kind"]}, "actual": {"o": bad["o"], "cls": bad["type"] + "@" + bad["where"]}},
                      dev=v.get("dev", ""))
